@@ -43,6 +43,7 @@ type walker struct {
 	rec      *kit.Func
 	recCall  *ast.CallExpr // f's call of rec
 	otherIDs []*types.Var  // f's id parameters that appear in the subject (in token order)
+	bind     map[types.Object]ast.Expr // rec's parameters and receiver fields -> what f supplies
 }
 
 // isBusSend: a call that publishes on the bus (nc.Publish*, or a client.* helper taking the connection).
@@ -119,18 +120,25 @@ func findWalkers(c *kit.Ctx) []*walker {
 		}
 		out = append(out, w)
 	}
-	out = append(out, findSharedWalkers(c)...)
+	direct := map[*kit.Func]bool{}
+	for _, w := range out {
+		direct[w.f] = true
+	}
+	out = append(out, findSharedWalkers(c, direct)...)
 	return out
 }
 
-// findSharedWalkers: the two walkers merged behind one recursive helper that takes
-// the subject as a function value (`rebroadcast(up, includeDeleted, subjectFor,
-// points)`); each non-recursive caller that hands it a closure building an
-// "up.…" subject is one walker.
-func findSharedWalkers(c *kit.Ctx) []*walker {
+// findSharedWalkers: the two walkers merged behind one recursive helper — a
+// function that takes the subject as a function value (`rebroadcast(up,
+// includeDeleted, subjectFor, points)`), or a method of a small type whose fields
+// carry the rest of the subject, the points and the flag (`upstreamPublisher{…}.
+// publish(up)`).  Each non-recursive caller that makes the helper publish on an
+// "up.…" subject is one walker; what the helper reads from a parameter or a
+// receiver field is resolved to what that caller supplied.
+func findSharedWalkers(c *kit.Ctx, direct map[*kit.Func]bool) []*walker {
 	var out []*walker
 	for _, rec := range c.P.Funcs("store") {
-		if rec.Decl == nil || rec.Body == nil {
+		if rec.Decl == nil || rec.Body == nil || direct[rec] {
 			continue
 		}
 		info := rec.Info()
@@ -143,64 +151,89 @@ func findSharedWalkers(c *kit.Ctx) []*walker {
 		if !self {
 			continue
 		}
-		// the send whose subject is the result of calling a func-typed parameter
 		var pub *ast.CallExpr
-		var subjCall *ast.CallExpr
-		var sp *types.Var
+		var subj ast.Expr
 		for _, call := range rec.AllCalls(false) {
 			if !isBusSend(info, call) {
 				continue
 			}
 			for _, a := range call.Args {
-				sc, ok := ast.Unparen(a).(*ast.CallExpr)
-				if !ok || len(sc.Args) != 1 {
-					continue
-				}
-				for _, p := range rec.Params() {
-					if _, isSig := p.Type().Underlying().(*types.Signature); isSig && kit.ObjOf(info, sc.Fun) == types.Object(p) {
-						pub, subjCall, sp = call, sc, p
-					}
+				if b, ok := info.TypeOf(a).Underlying().(*types.Basic); ok && b.Kind() == types.String {
+					pub, subj = call, a
 				}
 			}
 		}
 		if pub == nil {
 			continue
 		}
-		spIdx := -1
-		for i, p := range rec.Params() {
-			if p == sp {
-				spIdx = i
-			}
+		var recvObj types.Object
+		if rec.Decl.Recv != nil && len(rec.Decl.Recv.List) > 0 && len(rec.Decl.Recv.List[0].Names) > 0 {
+			recvObj = info.Defs[rec.Decl.Recv.List[0].Names[0]]
 		}
 		for _, g := range c.P.Funcs("store") {
 			if g.Decl == nil || g.Body == nil || g == rec {
 				continue
 			}
+			ginfo := g.Info()
 			for _, call := range g.AllCalls(false) {
-				if g.CalleeFunc(call) != rec || spIdx >= len(call.Args) {
+				if g.CalleeFunc(call) != rec {
 					continue
 				}
-				// the closure handed over
-				var lit *kit.Func
-				if fl, ok := ast.Unparen(call.Args[spIdx]).(*ast.FuncLit); ok {
-					lit = c.P.LitFunc("store", fl)
-				} else if v, ok := kit.ObjOf(g.Info(), call.Args[spIdx]).(*types.Var); ok {
-					lit = g.LocalClosure(v)
+				w := &walker{f: g, rec: rec, recCall: call, pubCall: pub, sprintf: subj, bind: map[types.Object]ast.Expr{}}
+				env := map[types.Object][]subjPart{}
+				// parameters: function values and non-string values are bound to the caller's arguments
+				for i, p := range rec.Params() {
+					if i >= len(call.Args) {
+						break
+					}
+					w.bind[p] = call.Args[i]
+					if _, isSig := p.Type().Underlying().(*types.Signature); isSig {
+						var lit *kit.Func
+						if fl, ok := ast.Unparen(call.Args[i]).(*ast.FuncLit); ok {
+							lit = c.P.LitFunc("store", fl)
+						} else if v, ok := kit.ObjOf(ginfo, call.Args[i]).(*types.Var); ok {
+							lit = g.LocalClosure(v)
+						}
+						if lit != nil {
+							env[p] = []subjPart{{fn: lit}}
+						}
+					}
 				}
-				if lit == nil || lit.Body == nil || len(lit.Params()) != 1 {
-					continue
+				// receiver fields: from the composite literal the caller builds the receiver with
+				if recvObj != nil {
+					if sel, ok := ast.Unparen(call.Fun).(*ast.SelectorExpr); ok {
+						if lit := compositeOf(g, sel.X, 0); lit != nil {
+							if stt, ok := ginfo.TypeOf(lit).Underlying().(*types.Struct); ok {
+								for i, el := range lit.Elts {
+									var fld *types.Var
+									val := el
+									if kv, ok := el.(*ast.KeyValueExpr); ok {
+										val = kv.Value
+										if id, ok := kv.Key.(*ast.Ident); ok {
+											for j := 0; j < stt.NumFields(); j++ {
+												if stt.Field(j).Name() == id.Name {
+													fld = stt.Field(j)
+												}
+											}
+										}
+									} else if i < stt.NumFields() {
+										fld = stt.Field(i)
+									}
+									if fld == nil {
+										continue
+									}
+									w.bind[fld] = val
+									if b, ok := fld.Type().Underlying().(*types.Basic); ok && b.Kind() == types.String {
+										if ps, ok := subjectParts(g, val, nil, 0); ok {
+											env[fld] = ps
+										}
+									}
+								}
+							}
+						}
+					}
 				}
-				rets := returnsOf(lit)
-				if len(rets) != 1 || len(rets[0]) != 1 {
-					continue
-				}
-				// the closure's parameter stands for what rec passes: its own ancestor parameter
-				argObj := kit.ObjOf(info, subjCall.Args[0])
-				if argObj == nil {
-					continue
-				}
-				env := map[types.Object][]subjPart{lit.Params()[0]: {{obj: argObj}}}
-				parts, ok := subjectParts(lit, rets[0][0], env, 0)
+				parts, ok := subjectParts(rec, subj, env, 0)
 				if !ok {
 					continue
 				}
@@ -208,24 +241,35 @@ func findSharedWalkers(c *kit.Ctx) []*walker {
 				if !ok || len(toks) == 0 || toks[0].obj != nil || toks[0].lit != "up" {
 					continue
 				}
-				w := &walker{f: g, rec: rec, recCall: call, sprintf: rets[0][0], pubCall: pub, tokens: toks}
+				w.tokens = toks
+				recParam := map[types.Object]bool{}
+				for _, p := range rec.Params() {
+					recParam[p] = true
+				}
 				for _, t := range toks[1:] {
 					if t.obj != nil {
 						w.verbs++
-						if t.obj != argObj {
-							if v, ok := t.obj.(*types.Var); ok {
-								w.otherIDs = append(w.otherIDs, v)
-							}
+						if v, ok := t.obj.(*types.Var); ok && !recParam[t.obj] {
+							w.otherIDs = append(w.otherIDs, v)
 						}
 					}
 				}
 				for _, p := range rec.Params() {
 					if b, ok := p.Type().Underlying().(*types.Basic); ok && b.Kind() == types.String {
 						w.strs = append(w.strs, p)
-					} else if kit.IsNamedType(p.Type(), dataPkg, "Points") {
-						w.points = p
-					} else if sl, ok := p.Type().Underlying().(*types.Slice); ok && kit.IsNamedType(sl.Elem(), dataPkg, "Point") {
-						w.points = p
+					}
+				}
+				// the points: a parameter of the helper, or a receiver field the caller filled
+				for _, a := range pub.Args {
+					t := info.TypeOf(a)
+					isPts := kit.IsNamedType(t, dataPkg, "Points")
+					if sl, ok := t.Underlying().(*types.Slice); ok && kit.IsNamedType(sl.Elem(), dataPkg, "Point") {
+						isPts = true
+					}
+					if isPts {
+						if v, ok := kit.ObjOf(info, a).(*types.Var); ok {
+							w.points = v
+						}
 					}
 				}
 				out = append(out, w)
@@ -233,6 +277,53 @@ func findSharedWalkers(c *kit.Ctx) []*walker {
 		}
 	}
 	return out
+}
+
+// compositeOf returns the struct literal e denotes in f: the literal itself
+// (possibly behind &), or a local defined once as one.
+func compositeOf(f *kit.Func, e ast.Expr, depth int) *ast.CompositeLit {
+	info := f.Info()
+	e = ast.Unparen(e)
+	if u, ok := e.(*ast.UnaryExpr); ok && u.Op == token.AND {
+		e = ast.Unparen(u.X)
+	}
+	if cl, ok := e.(*ast.CompositeLit); ok {
+		return cl
+	}
+	if o := kit.ObjOf(info, e); o != nil && depth < 2 {
+		var def ast.Expr
+		n := 0
+		ast.Inspect(f.Body, func(x ast.Node) bool {
+			if as, ok := x.(*ast.AssignStmt); ok && len(as.Lhs) == len(as.Rhs) {
+				for i, l := range as.Lhs {
+					if kit.ObjOf(info, l) == o {
+						n++
+						def = as.Rhs[i]
+					}
+				}
+			}
+			return true
+		})
+		if n == 1 && def != nil {
+			return compositeOf(f, def, depth+1)
+		}
+	}
+	return nil
+}
+
+// inWrapper resolves an expression of the shared helper to what the wrapper
+// supplied for it: a parameter to the wrapper's argument, a receiver field to the
+// value the wrapper's literal gives it.
+func (w *walker) inWrapper(e ast.Expr) (ast.Expr, *kit.Func) {
+	if w.rec == nil {
+		return e, w.f
+	}
+	if o := kit.ObjOf(w.rec.Info(), e); o != nil {
+		if x, ok := w.bind[o]; ok {
+			return x, w.f
+		}
+	}
+	return e, w.rec
 }
 
 // upFuncs: store functions (string, bool) -> ([]string, error) that read edges WHERE down.
@@ -494,15 +585,9 @@ func c06WalkerShape(c *kit.Ctx, m *storeModel, r2 *kit.Rule, w *walker, upf *kit
 		oUp.Violation("parent lookup is called with `%s`, not with a parameter of the walker", f.Str(upCall.Args[0]))
 		return
 	}
-	// includeDeleted handed through from the wrapper: its value is the wrapper's argument
-	inclExpr, inclInfo, inclF := upCall.Args[1], info, f
-	if w.rec != nil {
-		for i, p := range f.Params() {
-			if kit.ObjOf(info, upCall.Args[1]) == types.Object(p) && i < len(w.recCall.Args) {
-				inclExpr, inclInfo, inclF = w.recCall.Args[i], wrapper.Info(), wrapper
-			}
-		}
-	}
+	// includeDeleted handed through from the wrapper (argument or receiver field): its value is what the wrapper supplies
+	inclExpr, inclF := w.inWrapper(upCall.Args[1])
+	inclInfo := inclF.Info()
 	if v, ok := inclInfo.Types[inclExpr]; ok && v.Value != nil && v.Value.Kind() == constant.Bool && inclF != f {
 		if constant.BoolVal(v.Value) != wantDel {
 			oUp.Violation("%s walker hands includeDeleted=%v to %s: %s", kind, constant.BoolVal(v.Value), f.Name,
@@ -588,7 +673,16 @@ func c06WalkerShape(c *kit.Ctx, m *storeModel, r2 *kit.Rule, w *walker, upf *kit
 		}
 		for _, a := range call.Args {
 			if kit.ObjOf(info, a) == types.Object(w.points) {
-				return true
+				if w.rec == nil {
+					return true
+				}
+				// through the shared helper: what it sends is the wrapper's own points parameter
+				x, xf := w.inWrapper(a)
+				for _, p := range wrapper.Params() {
+					if xf == wrapper && kit.ObjOf(wrapper.Info(), x) == types.Object(p) {
+						return true
+					}
+				}
 			}
 		}
 		return false
@@ -740,9 +834,41 @@ func c06UpTable(c *kit.Ctx, m *storeModel, r3 *kit.Rule, upf *kit.Func) {
 		c.Fatalf("R3: edges result variable not found in %s", f.Name)
 	}
 	var lp *ast.RangeStmt
-	for _, rs := range f.SliceLoops(f.Body) {
-		if kit.ObjOf(info, rs.X) == edgesVar {
-			lp = rs
+	findLoop := func() {
+		lp = nil
+		for _, rs := range f.SliceLoops(f.Body) {
+			if kit.ObjOf(info, rs.X) == edgesVar {
+				lp = rs
+			}
+		}
+	}
+	findLoop()
+	if lp == nil {
+		// the filter may live in a helper that receives the queried edges and the flag
+		// (`return upstreamIDs(edges, includeDeleted), nil`): it is judged there
+		for _, call := range f.AllCalls(false) {
+			cf := f.CalleeFunc(call)
+			if cf == nil || cf.Body == nil || cf.Pkg != f.Pkg || cf == f {
+				continue
+			}
+			var ep, ip *types.Var
+			for i, a := range call.Args {
+				if i >= len(cf.Params()) {
+					break
+				}
+				if kit.ObjOf(info, a) == edgesVar {
+					ep = cf.Params()[i]
+				}
+				if kit.ObjOf(info, a) == types.Object(incl) {
+					ip = cf.Params()[i]
+				}
+			}
+			if ep != nil && ip != nil {
+				f, info, edgesVar, incl = cf, cf.Info(), ep, ip
+				c.Analysed(cf)
+				findLoop()
+				break
+			}
 		}
 	}
 	if lp == nil {
